@@ -12,8 +12,10 @@
 (*   fmid c     p o c o u            ... between prefix and symbol         *)
 (*   pfront q   q o p o u            an extra prefix in front of a VALID   *)
 (*                                   [prefix]symbol                        *)
-(*   exp k      p o u o ExpForms[k]  (p = none / first admissible / every  *)
-(*                                   two-letter prefix)                    *)
+(*   exp k      p o u o ExpForms[k]  (all forms for p = none / first       *)
+(*                                   admissible / two-letter; the          *)
+(*                                   fractional forms n:2, n:3 for EVERY   *)
+(*                                   admissible prefix)                    *)
 (* plus every system-unit symbol (plain, with exponent, with a prefix in   *)
 (* front) and the number literals.                                         *)
 (***************************************************************************)
@@ -24,7 +26,13 @@ CONSTANTS Foreign,      \* set of characters that are no prefix symbol
           Emit
 
 ExpForms == << <<"2">>, <<"-", "2">>, <<"1", ":", "2">>, <<"-", "3", ":", "2">>, <<"3">>, <<"2", ":", "4">>,
-               <<"1", "0">>, <<"0">>, <<"+", "2">>, <<"1", ":", "0">>, <<"-">>, <<"2", "-">>, <<":", "2">>, <<"1", ":", "2", ":", "3">> >>
+               <<"1", "0">>, <<"0">>, <<"+", "2">>, <<"1", ":", "0">>, <<"-">>, <<"2", "-">>, <<":", "2">>, <<"1", ":", "2", ":", "3">>,
+               <<"-", "1", ":", "2">>, <<"3", ":", "2">>, <<"5", ":", "2">>, <<"1", ":", "3">>, <<"-", "1", ":", "3">>,
+               <<"2", ":", "3">>, <<"-", "2", ":", "3">>, <<"4", ":", "3">>, <<"-", "1">> >>
+\* every fractional exponent n:d with d in {2, 3} (and -1): carried by EVERY admissible prefix of every unit, so
+\* that each decimal order of a prefix meets each fractional exponent, and by every unit whose table dimensions
+\* are themselves fractions
+FracIdx == {3, 4, 15, 16, 17, 18, 19, 20, 21, 22, 23}
 NumForms == << <<"2">>, <<"6", "0">>, <<"3", "6", "5", ".", "2", "5">>, <<"1", ".", "6", "7", "e", "-", "2", "4">>,
                <<"1", "e", "3">>, <<"2", ".", "5", "e", "-", "7">>, <<"-", "3">>, <<"1", "e", "+", "2">>, <<"0", ".", "5">>,
                <<"1", "e", "3", "0">>, <<"5", ".">>, <<".", "5">>, <<"1", ".", "2", ".", "3">>, <<"1", "e", "+", "-", "3">> >>
@@ -65,7 +73,9 @@ Children(x) ==
                          \cup (IF x.p > 0 THEN {Node("L", x.u, x.p, "fmid", c, 0) : c \in Foreign} ELSE {})
                          \cup (IF PlainValid(x.u, x.p) THEN {Node("L", x.u, x.p, "pfront", "", q) : q \in 1..NP} ELSE {})
                          \cup (IF x.p = 0 \/ x.p = FirstAdm(x.u) \/ (TwoLetter(x.p) /\ Admissible(x.p, x.u))
-                               THEN {Node("L", x.u, x.p, "exp", "", k) : k \in 1..Len(ExpForms)} ELSE {})
+                               THEN {Node("L", x.u, x.p, "exp", "", k) : k \in 1..Len(ExpForms)}
+                               ELSE IF Admissible(x.p, x.u) THEN {Node("L", x.u, x.p, "exp", "", k) : k \in FracIdx}
+                               ELSE {})
     [] OTHER -> {}
 
 Init == v_cs = Node("root", 0, 0, "", "", 0)
